@@ -41,6 +41,23 @@ CHECKS = {
         ref="5/C04", tech="TLA+ model checking with fairness (TLC liveness) + trace validation of event-loop executions",
         note=CONN_NOTE + " 'Within bounded time' is judged only as: no descriptor readable for 1.5 s while the trace specification says something "
              "is owed; establishment phases (resolution, TCP connect, TLS handshake) are covered by the C13/C05 machinery, not here."),
+    "C05": dict(
+        text="In spec/Xcm.tla, spec/XcmLive.tla and spec/XcmEst.tla every API call on a non-blocking socket is ONE action: there is no "
+             "state inside a call in which the thread waits for the environment, and XcmEst (resolution/connect/handshake phases, all "
+             "behaviours of the remote address: accept, refuse, silent, late, mute, garbage) is model-checked with TLC for outcome, "
+             "no-lost-wake-up and liveness. Binding: the link-time shim counts, inside every library call made on a non-blocking socket, "
+             "every poll/ppoll/select/epoll_wait with a non-zero timeout, nanosleep/usleep/sleep and every send/recv/connect/accept on a "
+             "descriptor without O_NONBLOCK; the count is a field of every trace step and the trace specifications (XcmTrace, XcmEstTrace) "
+             "reject any step with a non-zero count (C05.wait). Executions: harness/est_exec drives xcm_connect_a, xcm_accept_a, "
+             "xcm_finish, xcm_send, xcm_receive, xcm_await, xcm_fd, attribute get/set and xcm_close on ux, uxf, tcp, btcp, tls, btls, utls "
+             "through connect-in-progress, refused, silent address (connect timeout), late answer, TLS handshake against a mute or "
+             "garbage-speaking peer and idle server sockets; harness/conn_exec covers established connections under injected and real "
+             "back-pressure (small socket buffers), dead and resetting peers.",
+        ref="5/C05", tech="TLA+ model checking (TLC) + trace validation with a shim that detects waiting primitives inside non-blocking calls",
+        note="Trusted base: TLC + CommunityModules; the shim sees calls made from libxcm's own objects (and from OpenSSL's BIO callbacks "
+             "into libxcm), not sleeps inside libssl/libc-ares themselves. A call that really blocks is caught by the per-execution "
+             "watchdog (60 s, reported as a crash-class event). Name-resolution phases with a scripted resolver are exercised by the C13 "
+             "harness, whose traces carry the same counter."),
     "C06": dict(
         text="C06_Sticky, C06_DrainFirst on spec/Xcm.tla with errno injection and orderly close at every point; real executions with "
              "injected errnos, real close and real reset (SO_LINGER 0), raw peers dying mid-frame; the trace specification checks "
